@@ -317,14 +317,14 @@ def eshape(e):
     return op
 
 
-def totality(run, n_exh, n_rand, rand_len):
+def totality(run, n_exh, n_rand, rand_len, n_edge):
     from whoosh.qparser import QueryParserError
     from whoosh.query import QueryError
     fd, path = tempfile.mkstemp(prefix="verif-qi-", suffix=".json")
     os.close(fd)
     try:
         res = tlc.run_tlc("QueryLangInputs", "QueryLangInputs.cfg", workers=1, seed=run.seed + 16,
-                          env={"OUT_FILE": path, "N_EXH": n_exh, "N_RAND": n_rand, "RAND_LEN": rand_len}, timeout=1800)
+                          env={"OUT_FILE": path, "N_EXH": n_exh, "N_RAND": n_rand, "RAND_LEN": rand_len, "N_EDGE": n_edge}, timeout=1800)
         run.add_tlc("QueryLangInputs", res)
         import json
         inp = json.load(open(path))
@@ -336,8 +336,9 @@ def totality(run, n_exh, n_rand, rand_len):
             sx = sx.replace(k, v)
         return sx
     strings = sorted(set(concrete(x) for x in inp["exhaustive"] + inp["random"]))
-    run.note("totality inputs from TLC: %d exhaustive (<= %d tokens of %d), %d random (%d tokens)" % (
-        len(inp["exhaustive"]), n_exh, len(inp["tokens"]), len(inp["random"]), rand_len))
+    run.note("totality inputs from TLC: %d exhaustive (<= %d tokens of %d, and <= %d tokens in each grammar "
+             "context), %d random (%d tokens)" % (len(inp["exhaustive"]), n_exh, len(inp["tokens"]), n_edge,
+                                                   len(inp["random"]), rand_len))
     global _TOT_STRINGS, _TOT_IX
     _TOT_STRINGS = strings
     _TOT_IX = rich_index()        # built once, inherited by the forked workers
@@ -416,9 +417,9 @@ def check(run):
                 "search outcomes judged by TLC; non-trivial = accepted expression selecting some but not all documents")
     semantic(run, rng, 3 if quick else 30, 25 if quick else 40)
     if quick:
-        totality(run, 2, 1500, 5)
+        totality(run, 2, 1500, 5, 1)
     else:
-        totality(run, 3, 20000, 6)
+        totality(run, 3, 20000, 6, 2)
 
 
 def replay(run, rp):
